@@ -1,1 +1,24 @@
-From QV Require Import Base Fields SrcFacts Msg SrcDecisions Cache Sim Browser BrowserSpec.
+(* Properties_C15.v — every browser report is backed by valid records and never goes stale (partial). *)
+From QV Require Import Base Fields SrcFacts Msg SrcDecisions Cache Sim Browser BrowserSpec BrowserProofs.
+Local Open Scope Z_scope.
+
+(* PARTIAL (handler level).  Every description updateService reports is assembled from the cache content it sees: a PTR
+   record named the service's type exists, the hostname and port are those of the first SRV record of the instance, the
+   attributes are the merge of all its TXT records.  By C05/C06 (Properties_C05/C06) the cache content is exactly the
+   unexpired, not withdrawn records - and since the expiry announcement now follows the removal (fix recorded in
+   known_findings.json) the re-evaluation on TXT expiry no longer sees the expired record.  Freshness over whole
+   histories (codes 60-64) is decided on every run by the acceptor mon_browser with its reference cache. *)
+Theorem C15_report_assembled_from_cache_partial j v fq b :
+  let '(need, b', es) := update_service j v fq b in
+  let '(sname, stype) := split_fq fq in
+  forall sg s, In (ESig (N.of_nat j) sg (PService s)) es ->
+  lookup_view stype T_PTR v <> [] /\
+  exists srv, hd_error (lookup_view fq T_SRV v) = Some srv /\
+              s = mkService stype sname (r_target srv) (r_port srv) (merged_attrs fq v).
+Proof.
+  pose proof (update_service_spec j v fq b) as U.
+  destruct (update_service j v fq b) as [[need b'] es]. destruct (split_fq fq) as [sname stype].
+  intros sg s H. destruct U as [[-> _]|(srv & s0 & P & S & -> & _ & _ & [[_ ->]|(old & _ & _ & ->)])]; [destruct H| |];
+    destruct H as [H|[]]; injection H as _ <-; split; try exact P; exists srv; auto.
+Qed.
+Print Assumptions C15_report_assembled_from_cache_partial.
